@@ -28,6 +28,7 @@ EXTENDS Naturals, Sequences, FiniteSets, TLC, Json
 CONSTANTS Vals,        \* scalar values [t, v] that may be stored / passed
           Dflts,       \* scalar values used as the default of ObjectGet
           Keys,        \* object keys
+          PathKeys,    \* PATH keys: sequences of plain keys, passed to the C API joined by '/' ("a/b/c")
           MaxHandles, MaxLen,   \* bounds: handles ever created, array length
           Ops,         \* enabled action names (subset; lets configs focus)
           EchoToks,    \* tokens for the kernel echo (empty: no echo)
@@ -177,6 +178,59 @@ ObjGet(h, k, dflt) ==
   /\ UNCHANGED <<docs, gone>>
   /\ hist' = Append(hist, [a |-> "oget", h |-> h, k |-> k, x |-> dflt, src |-> 0, i |-> 0, obs |-> AllObs'])
 
+\* ---- path keys: occaJsonObjectSet / ObjectGet / ObjectHas treat a key containing '/' as a path into nested
+\* objects (nested-dictionary semantics): set creates the intermediate objects; has and get agree; get of a
+\* path that does not resolve (missing member, or a scalar on the way) returns the default, with its type
+RECURSIVE PathStr(_)
+PathStr(pk) == IF Len(pk) = 1 THEN pk[1] ELSE pk[1] \o "/" \o PathStr(Tail(pk))
+KidsOf(x) == IF x.t = "obj" THEN x.kids ELSE <<>>
+RECURSIVE SetPath(_, _, _)
+SetPath(x, pk, new) ==
+  IF pk = <<>> THEN new
+  ELSE LET kids == KidsOf(x)
+           pos == KeyPos(kids, Head(pk))
+           nc == SetPath(IF pos = 0 THEN None ELSE kids[pos].val, Tail(pk), new)
+       IN [t |-> "obj", v |-> "", kids |-> IF pos = 0 THEN Append(kids, [k |-> Head(pk), val |-> nc])
+                                                  ELSE [kids EXCEPT ![pos].val = nc]]
+\* the walk of a set only passes through objects (or creates them)
+RECURSIVE Settable(_, _)
+Settable(x, pk) == IF pk = <<>> THEN TRUE
+                   ELSE /\ x.t \in {"none", "obj"}
+                        /\ LET pos == KeyPos(KidsOf(x), Head(pk)) IN
+                             IF pos = 0 THEN TRUE ELSE Settable(x.kids[pos].val, Tail(pk))
+RECURSIVE Resolves(_, _)
+Resolves(x, pk) == IF pk = <<>> THEN TRUE
+                   ELSE IF x.t = "obj" /\ KeyPos(x.kids, Head(pk)) > 0
+                        THEN Resolves(x.kids[KeyPos(x.kids, Head(pk))].val, Tail(pk))
+                        ELSE FALSE
+
+PathSet(h, pk, x) ==
+  /\ "PathSet" \in Ops /\ JsonHandle(h)
+  /\ LET cur == ValueOf(h)  root == handles[h].root  p == handles[h].path  new == Stored(x) IN
+     /\ cur.t \in {"none", "obj"} /\ new.t # "none" /\ Settable(cur, pk)
+     /\ Len(p) + Len(pk) + Depth(new) <= 3
+     /\ docs' = [docs EXCEPT ![root] = PutAt(docs[root], p, SetPath(cur, pk, new))]
+     /\ handles' = KillBelow(root, p \o pk, TRUE)
+  /\ UNCHANGED gone
+  /\ hist' = Append(hist, [a |-> "pset", h |-> h, k |-> PathStr(pk), x |-> Stored(x), src |-> SrcOf(x), i |-> 0, obs |-> AllObs'])
+
+PathGet(h, pk, dflt) ==
+  /\ "PathGet" \in Ops /\ JsonHandle(h) /\ Room
+  /\ LET cur == ValueOf(h) IN
+     /\ cur.t = "obj"
+     /\ NewHandle(IF ~Resolves(cur, pk) THEN Value(dflt)
+                  ELSE IF At(cur, pk).t = "null" THEN Value(Null)
+                  ELSE Ref(handles[h].root, handles[h].path \o pk))
+  /\ UNCHANGED <<docs, gone>>
+  /\ hist' = Append(hist, [a |-> "pget", h |-> h, k |-> PathStr(pk), x |-> dflt, src |-> 0, i |-> 0, obs |-> AllObs'])
+
+PathHas(h, pk) ==
+  /\ "PathHas" \in Ops /\ JsonHandle(h)
+  /\ ValueOf(h).t = "obj"
+  /\ UNCHANGED <<docs, gone, handles>>
+  /\ hist' = Append(hist, [a |-> "phas", h |-> h, k |-> PathStr(pk), x |-> None, src |-> 0, i |-> 0, obs |-> AllObs,
+                           res |-> Resolves(ValueOf(h), pk)])
+
 \* occaJsonArrayPush(h, x)
 ArrPush(h, x) ==
   /\ "ArrPush" \in Ops /\ JsonHandle(h)
@@ -261,6 +315,9 @@ Next ==
   \/ Create
   \/ \E h \in 1..Len(handles), k \in Keys, x \in Storable : ObjSet(h, k, x)
   \/ \E h \in 1..Len(handles), k \in Keys, d \in Dflts : ObjGet(h, k, d)
+  \/ \E h \in 1..Len(handles), pk \in PathKeys, x \in Storable : PathSet(h, pk, x)
+  \/ \E h \in 1..Len(handles), pk \in PathKeys, d \in Dflts : PathGet(h, pk, d)
+  \/ \E h \in 1..Len(handles), pk \in PathKeys : PathHas(h, pk)
   \/ \E h \in 1..Len(handles), x \in Storable : ArrPush(h, x)
   \/ \E h \in 1..Len(handles), i \in 0..(MaxLen - 1) : ArrGet(h, i)
   \/ \E h \in 1..Len(handles) : ArrChange(h, "ArrPop", 0, Null) \/ ArrChange(h, "ArrClear", 0, Null)
@@ -304,6 +361,16 @@ ScalarScript ==
   /\ Len(hist) >= 3 => CASE hist[2].a = "oset"  -> hist[3].a = "oget" /\ hist[3].k = hist[2].k
                           [] hist[2].a = "apush" -> hist[3].a = "aget"
                           [] OTHER -> hist[3].a = "free" /\ hist[3].h = 1
+\* has and get agree, and a path set is found again (nested-dictionary semantics)
+PathSetIsFound ==
+  hist # <<>> => LET s == hist[Len(hist)] IN
+    s.a = "pset" => \E pk \in PathKeys : PathStr(pk) = s.k /\ Resolves(ValueOf(s.h), pk) /\ At(ValueOf(s.h), pk) = s.x
+\* generation shape for path keys: create; path set; path set | get | has; path get | has
+PathScript ==
+  /\ Len(hist) >= 1 => hist[1].a = "create"
+  /\ Len(hist) >= 2 => hist[2].a = "pset" /\ hist[2].src = 0
+  /\ Len(hist) >= 3 => hist[3].a \in {"pset", "pget", "phas"}
+  /\ Len(hist) >= 4 => hist[4].a \in {"pget", "phas"}
 \* generation shape that re-observes the deviation: create; push; get element 0; push again (then read the element)
 PushRefScript ==
   /\ Len(hist) >= 1 => hist[1].a = "create"
